@@ -198,6 +198,8 @@ type c10MonitorOpts struct {
 	UDP  func() udpServer.Option // also used for the dtls server
 	DTLS func() dtlsServer.Option
 	TCP  func() tcpServer.Option
+	// OnTrack (optional) sees every new connection: n = 1 for the first one of that remote address
+	OnTrack func(remote string, n int, cc interface{ AddOnClose(func()) })
 }
 
 func c10NewWorld(e *Env, kind, label string, nClients int) *c10World {
@@ -266,12 +268,16 @@ func c10NewWorldMonInto(w *c10World, e *Env, kind, label string, nClients int, m
 			w.maxLive[remote] = w.newConns[remote]
 		}
 		w.conns[remote] = append(w.conns[remote], cc)
+		nth := len(w.conns[remote])
 		w.mu.Unlock()
 		cc.AddOnClose(func() {
 			w.mu.Lock()
 			w.newConns[remote]--
 			w.mu.Unlock()
 		})
+		if mon != nil && mon.OnTrack != nil {
+			mon.OnTrack(remote, nth, cc)
+		}
 	}
 	var udpMon udpServer.Option = options.WithInactivityMonitor(100000*time.Second, func(cc *udpClient.Conn) { _ = cc.Close() })
 	var dtlsMon dtlsServer.Option = options.WithInactivityMonitor(100000*time.Second, func(cc *udpClient.Conn) { _ = cc.Close() })
